@@ -31,6 +31,9 @@ func init() {
 			Trusted:     commonTrusted,
 		},
 		Mutants: []Mutant{
+			{Name: "validity guard before formatting the type dropped (agent seed C12/2)", File: "eval.go", Old: "\tif !term.IsValid() {\n\t\tnode.errorf(\"base expression of command pipe node is invalid value\")\n\t}\n", New: "", Rule: "C12.report"},
+			{Name: "type of a possibly-nil call target formatted with Type() (original defect)", File: "eval.go", Old: "node.errorf(\"node %q is not func kind %q\", node.BaseExpr, getTypeString(baseExpr))", New: "node.errorf(\"node %q is not func kind %q\", node.BaseExpr, baseExpr.Type())", Rule: "C12.report"},
+			{Name: "line numbers counted over emitted items only (agent seed C12/1, reduced)", File: "lex.go", Old: "\treturn 1 + strings.Count(l.input[:l.lastPos], \"\\n\")", New: "\treturn 1 + strings.Count(l.input[l.start:l.lastPos], \"\\n\")", Rule: "C12.line"},
 			{Name: "string panic in a built-in (original defect)", File: "default.go", Old: "a.Panicf(\"map(): incomplete key-value pair (even number of arguments required)\")", New: "panic(\"map(): incomplete key-value pair (even number of arguments required)\")", Rule: "C12.panicval"},
 			{Name: "errorf on a nil receiver (original defect)", File: "eval.go", Old: "node.errorf(\"additive expression: right side %s (%s) is not a numeric value (no left side)\"", New: "node.Left.errorf(\"additive expression: right side %s (%s) is not a numeric value (no left side)\"", Rule: "C12.nilrecv"},
 			{Name: "number literal loses its line (original defect)", File: "constructors.go", Old: "n := &NumberNode{NodeBase: NodeBase{TemplatePath: t.Name, NodeType: NodeNumber, Pos: pos, Line: t.lex.lineNumber()}, Text: text}", New: "n := &NumberNode{NodeBase: NodeBase{TemplatePath: t.Name, NodeType: NodeNumber, Pos: pos}, Text: text}", Rule: "C12.line"},
@@ -206,6 +209,9 @@ func runC12(c *an.Ctx) {
 	c.Expect("C12.nilrecv", "error-report call sites in the evaluator", nCalls, 30)
 	c.OK("C12.nilrecv", "summary", p.Jet.Syntax[0].Pos(), "%d error-report call sites inspected for provably-nil receivers", nCalls)
 
+	// ---------------------------------------------------------------- C12.report
+	c12report(c, eval, parse)
+
 	// ---------------------------------------------------------------- C12.format
 	if ef := c.Fn("C12.format", "(*NodeBase).errorf"); ef != nil {
 		hasPath, hasLine, panicsErrorf := false, false, false
@@ -295,6 +301,44 @@ func runC12(c *an.Ctx) {
 func c12line(c *an.Ctx, eval, parse map[*an.Fn]bool) {
 	p := c.P
 	info := p.Jet.TypesInfo
+	// the line is derived from the whole input before the item (skipped comments and trimmed whitespace
+	// count too), and the item position is recorded by nextItem
+	if ln := c.Fn("C12.line", "(*lexer).lineNumber"); ln != nil {
+		ok := false
+		if len(ln.Body.List) == 1 {
+			if ret, isRet := ln.Body.List[0].(*ast.ReturnStmt); isRet && an.Norm(ln, ret.Results[0]) == `(1 + strings.Count($r.input[:$r.lastPos], "\n"))` {
+				ok = true
+			}
+		}
+		c.Check(ok, "C12.line", "(*lexer).lineNumber/source", ln.Pos(), "the line number counts every newline of the input before the current item",
+			"lexer.lineNumber is not 1 + the number of newlines in input[:lastPos]: input that never becomes a token (comments, trimmed whitespace) is not counted and later errors name the wrong line")
+	}
+	if ni := c.Fn("C12.line", "(*lexer).nextItem"); ni != nil {
+		ok := false
+		an.InspectOwn(ni, func(n ast.Node) bool {
+			an.Assigns(n, func(lhs, rhs ast.Expr, _ token.Token) {
+				if p.FieldKey(info, lhs) == "lexer.lastPos" && rhs != nil && p.FieldKey(info, rhs) == "item.pos" {
+					ok = true
+				}
+			})
+			return true
+		})
+		n := 0
+		for _, f := range p.Fns {
+			if f.Pkg != p.Jet || f.Body == nil {
+				continue
+			}
+			an.InspectOwn(f, func(nd ast.Node) bool {
+				an.Assigns(nd, func(lhs, _ ast.Expr, _ token.Token) {
+					if p.FieldKey(info, lhs) == "lexer.lastPos" {
+						n++
+					}
+				})
+				return true
+			})
+		}
+		c.Check(ok && n == 1, "C12.line", "(*lexer).nextItem/lastPos", ni.Pos(), "lastPos is the position of the item most recently handed to the parser, set only by nextItem", "lexer.lastPos is not set (only) by nextItem from the item's position")
+	}
 	nodeIf := p.Iface("", "Node")
 	// R: node types that can be the receiver of an error report while executing
 	R := map[string]bool{}
@@ -521,4 +565,115 @@ func c12early(c *an.Ctx, parse map[*an.Fn]bool) {
 		}
 	}
 	c.Expect("C12.early", "constructor calls in body-parsing functions", n, 4)
+}
+
+// c12report: an error report must not itself panic.  Values produced by evaluating template
+// expressions may be the zero reflect.Value (nil); calling Type() on one inside the argument list of
+// errorf/Errorf panics with a *reflect.ValueError, which reaches the caller as an error without file
+// or line.  The package's own idiom for such values is getTypeString.  Every Type() on an evaluated
+// value inside a report must lie behind a validity fact (IsValid() or a successful Kind() test).
+func c12report(c *an.Ctx, eval, parse map[*an.Fn]bool) {
+	p := c.P
+	isEvalCall := func(name string) bool {
+		switch name {
+		case "(*jet.Runtime).evalPrimaryExpressionGroup", "(*jet.Runtime).evalBaseExpressionGroup", "(*jet.Runtime).resolve", "(*jet.Runtime).evalChainNodeExpression",
+			"(*jet.Arguments).Get", "(*jet.Runtime).evalCallExpression", "(*jet.Runtime).evalPipeCallExpression":
+			return true
+		}
+		return false
+	}
+	n := 0
+	for _, f := range an.SortedFns(eval) {
+		if f.Pkg != p.Jet || f.Body == nil || parse[f] {
+			continue
+		}
+		info := f.Info()
+		// locals holding evaluated values
+		evaluated := map[types.Object]bool{}
+		an.InspectOwn(f, func(nd ast.Node) bool {
+			an.Assigns(nd, func(lhs, rhs ast.Expr, _ token.Token) {
+				if id, ok := an.Unparen(lhs).(*ast.Ident); ok && rhs != nil {
+					if call, ok := an.Unparen(rhs).(*ast.CallExpr); ok && isEvalCall(an.CalleeName(info, call)) {
+						evaluated[an.ObjOf(info, id)] = true
+					}
+				}
+			})
+			if as, ok := nd.(*ast.AssignStmt); ok && len(as.Rhs) == 1 && len(as.Lhs) > 1 {
+				if call, ok := an.Unparen(as.Rhs[0]).(*ast.CallExpr); ok && isEvalCall(an.CalleeName(info, call)) {
+					if id, ok := an.Unparen(as.Lhs[0]).(*ast.Ident); ok {
+						evaluated[an.ObjOf(info, id)] = true
+					}
+				}
+			}
+			return true
+		})
+		if len(evaluated) == 0 {
+			continue
+		}
+		// reports containing <evaluated>.Type()
+		type use struct {
+			report *ast.CallExpr
+			recv   *ast.Ident
+		}
+		var uses []use
+		var targets []ast.Node
+		an.InspectOwn(f, func(nd ast.Node) bool {
+			call, ok := nd.(*ast.CallExpr)
+			if !ok {
+				return true
+			}
+			name := an.CalleeName(info, call)
+			if !(strings.HasSuffix(name, ".errorf") || name == "fmt.Errorf" || name == "(*jet.Arguments).Panicf") {
+				return true
+			}
+			for _, a := range call.Args {
+				ast.Inspect(a, func(m ast.Node) bool {
+					tc, ok := m.(*ast.CallExpr)
+					if !ok || an.CalleeName(info, tc) != "(reflect.Value).Type" {
+						return true
+					}
+					if id, ok := an.Unparen(an.Receiver(tc)).(*ast.Ident); ok && evaluated[an.ObjOf(info, id)] {
+						uses = append(uses, use{call, id})
+						targets = append(targets, call)
+					}
+					return true
+				})
+			}
+			return true
+		})
+		if len(uses) == 0 {
+			continue
+		}
+		pr := p.ProbeFn(f, targets, an.Hooks{})
+		c.States += pr.X.Visited
+		for _, u := range uses {
+			n++
+			key := f.Name + "/" + u.recv.Name + ".Type()"
+			ok := len(pr.At[u.report]) > 0
+			for _, st := range pr.At[u.report] {
+				valid := false
+				for k, v := range st.Facts {
+					pk := an.PlainKey(k)
+					if v && (pk == u.recv.Name+".IsValid()" || strings.HasSuffix(pk, " == "+u.recv.Name+".Kind()") && !strings.HasPrefix(pk, "reflect.Invalid")) {
+						valid = true
+					}
+				}
+				for k := range st.Regs {
+					if strings.HasPrefix(an.PlainKey(k), "eq:"+u.recv.Name+".Kind()") {
+						valid = true
+					}
+				}
+				if !valid {
+					ok = false
+				}
+			}
+			if ok {
+				c.OK("C12.report", key, u.report.Pos(), "%s is known to be a valid value where its type is formatted", u.recv.Name)
+			} else {
+				c.Bad("C12.report", key, u.report.Pos(), nil,
+					"%s formats %s.Type() into an error message although %s — the result of evaluating a template expression — may be the zero reflect.Value (nil) on this path: Type() panics and Execute returns \"reflect: call of reflect.Value.Type on zero Value\" without file or line (use getTypeString)", f.Name, u.recv.Name, u.recv.Name)
+			}
+		}
+	}
+	c.Expect("C12.report", "Type() of evaluated values inside error reports", n, 3)
 }
